@@ -130,9 +130,39 @@ def gen_e2e_only(rng):
     return "cps %s %s" % (hexs(a), hexs(b)), "ok n=%d %s" % (n, hexs(b[:n] + a[n:]))
 
 
+KEY_USTR = "unsafe.String:narrow-length-operand"
+
+
+def ustr_probe(ctx):
+    """unsafe.String(p, n) with n of a type narrower than int: one small program, -O0, against the Go toolchain"""
+    d = os.path.join(ctx.scratch, "e2e-c05-ustr")
+    e2e.write_module(d, {"main.go": open(os.path.join(H, "ustr_probe.go.txt")).read()})
+    refbin = os.path.join(d, "ref.bin")
+    p = e2e.go_run_reference(ctx, d, refbin)
+    if p.returncode != 0:
+        raise RuntimeError("ustr probe does not build with the Go toolchain: " + (p.stdout + p.stderr)[-800:])
+    want = [l for l in e2e.run_prog(refbin)[1].split("\n") if l.startswith("@")]
+    out_bin = os.path.join(d, "probe.bin")
+    p = e2e.llgo_build(ctx, d, out_bin, opt="-O0")
+    if p.returncode != 0 or not os.path.exists(out_bin):
+        msg = (p.stdout + p.stderr)
+        first = next((l for l in msg.split("\n") if "ERROR" in l or "error" in l), msg[:200])
+        ctx.report(KEY_USTR, "llgo cannot compile unsafe.String(p, n) when n has an integer type narrower than int: " + first.strip()[:200],
+                   {"program": "harness/c05/ustr_probe.go.txt", "llgo_build_rc": p.returncode, "first_error_line": first.strip()[:300], "go": want})
+        return {"ustr_probe": "llgo build failed"}
+    got = [l for l in e2e.run_prog(out_bin)[1].split("\n") if l.startswith("@")]
+    if got != want:
+        diff = [(a, b) for a, b in zip(got, want) if a != b][:5]
+        ctx.report("e2e-O0:unsafe.String:narrow:%s" % (diff[0][1] if diff else "output-truncated"),
+                   "unsafe.String with a narrow length operand: llgo prints %s, Go toolchain %s" % (got, want), {"llgo": got, "go": want})
+        return {"ustr_probe": "differs"}
+    return {"ustr_probe": "agrees with Go (%d cases)" % (len(want) - 1)}
+
+
 def run_e2e(ctx, rng, quick):
     e2e.build_llgo(ctx)
     ctx.log("e2e: llgo built from the working tree")
+    probe_cov = ustr_probe(ctx)
     # ---- one script for everything
     scripts = [("e2e-witness-zero", ["reset", "nil r0 0", "mk r1 1 1 0 0", "app r2 r0 r1 -"]),
                ("e2e-witness-overlap", ["reset", "mk r0 4 4 1 7", "appself r1 r0 1 2 -"])]
@@ -185,8 +215,9 @@ def run_e2e(ctx, rng, quick):
     t_bad = [typed[j] for j in range(len(typed)) if ref_out[t_base + j] == "bad-op"]
     if t_bad or t_ok < len(typed) // 4:
         raise RuntimeError("typed-operand section of the e2e interpreter is off: %d ok of %d, bad-op: %s" % (t_ok, len(typed), t_bad[:3]))
-    cov = {"e2e_typed_operand_lines": len(typed), "e2e_typed_ok_in_go": t_ok, "e2e_typed_panic_in_go": len(typed) - t_ok,
-           "e2e_lines": len(all_lines), "e2e_builds": 0, "e2e_opt_levels": [], "e2e_spec_validation_failures": bad_ref}
+    cov = dict(probe_cov)
+    cov.update({"e2e_typed_operand_lines": len(typed), "e2e_typed_ok_in_go": t_ok, "e2e_typed_panic_in_go": len(typed) - t_ok,
+           "e2e_lines": len(all_lines), "e2e_builds": 0, "e2e_opt_levels": [], "e2e_spec_validation_failures": bad_ref})
     for opt in ("-O0", "-O2"):
         out_bin = os.path.join(d, "prog%s.bin" % opt)
         p = e2e.llgo_build(ctx, d, out_bin, opt=opt)
@@ -238,12 +269,14 @@ def run_e2e(ctx, rng, quick):
         by_kind = {}
         for (kind, ty), lst in tfail.items():
             by_kind.setdefault(kind, []).extend(lst)
-        for kind in sorted(by_kind):
-            lst = sorted(by_kind[kind], key=lambda x: (len(x[0]), x[0]))
-            l, a, b = lst[0]
-            ctx.report(label + "typed:%s:%s" % (kind, l), "llgo %s: `%s` (bound/length operand of type %s) gives `%s`, Go toolchain: `%s` (%d lines of this kind differ, types: %s)"
-                       % (opt, l, l.split()[1], a, b, len(lst), ",".join(sorted(set(x[0].split()[1] for x in lst)))),
-                       {"line": l, "llgo": a, "go": b, "opt": opt, "differing_lines_of_this_kind": [x[0] for x in lst[:40]]})
+        if by_kind:
+            every = sorted((x for lst in by_kind.values() for x in lst), key=lambda x: (len(x[0]), x[0]))
+            l, a, b = every[0]
+            ctx.report(label + "typed:%s" % l, "llgo %s: `%s` (bound/length/count operand of type %s) gives `%s`, Go toolchain: `%s`; %d typed-operand lines differ (kinds: %s; operand types: %s)"
+                       % (opt, l, l.split()[1], a, b, len(every), ",".join(sorted(by_kind)), ",".join(sorted(set(x[0].split()[1] for x in every)))),
+                       {"line": l, "llgo": a, "go": b, "opt": opt,
+                        "shortest_differing_line_per_kind": {k: dict(zip(("line", "llgo", "go"), sorted(v, key=lambda x: (len(x[0]), x[0]))[0])) for k, v in by_kind.items()},
+                        "differing_lines": [x[0] for x in every[:80]]})
         spec_fail += sum(len(v) for v in by_kind.values())
         for op in sorted(sfail):
             lst = sorted(sfail[op], key=lambda x: len(x[0]))
